@@ -982,22 +982,28 @@ MANIFEST = {
     "technique": "Coq theorems over a port of Table::Query / match_extra_code / DictEntryIterator / Script- and TableTranslation "
                  "(abstract syllable graph, table index and prism; Poet as oracle) + extracted-model/real-translator correspondence "
                  "+ brute-force reference from the source rows",
-    "text": "Properties_C07.v (27 theorems, no axioms) proves of the model, for every graph, table, prism and input: Table::Query "
+    "text": "Properties_C07.v (42 theorems, no axioms) proves of the model, for every graph, table, prism and input: Table::Query "
             "returns at each end position exactly the index codes labelling a path (codes > 3 syllables through the tail page and "
             "match_extra_code, registered at the farthest end); the script translator's phrase candidates are exactly the table "
             "entries whose code is spelled from 0 (C07_script_candidates_exact, C07_collector_exact), every such entry survives "
             "DistinctTranslation, longer matches come first, inside one end position best head first (weight + credibility, "
             "same-code dictionary-weight order: partial), the sentence is a concatenation of spelled entries covering the "
-            "interpreted input (Poet's answer type assumed), nothing else is emitted; table translator: entries whose code equals "
+            "interpreted input (Poet's answer type assumed), nothing else is emitted; in the candidate list (after "
+            "DistinctTranslation) entries of one code appear in non-increasing dictionary weight order (full; refuted for the "
+            "undeduplicated stream); table translator: entries whose code equals "
             "the input in non-increasing weight order (refuted for the code before fix 3b72e76, proved after), none but those when "
-            "completion is off, with completion only entries of keys extending the input (any number of fetches), exact-then-"
-            "completion order proved for fewer than 10 extending keys (partial).  Tie: generated dictionaries and schemas "
+            "completion is off, with completion only entries of keys extending the input, and for any number of fetches (limits "
+            "10/100/1000 with Skip) the first ten keys' entries come first, best head first, followed only by entries of later "
+            "keys (full; one globally sorted list is refuted beyond ten keys).  Composition (coq/Lookup/Compose*.v): the graph of "
+            "C08's build_syllable_graph satisfies wf_graph and graph_pruned, the index of C06's build_head/compile_vocab satisfies "
+            "wf_table and table_sorted, with end-to-end corollaries from source files, prism and input to candidates.  Tie: generated dictionaries and schemas "
             "({script,table} x completion x sentence x delimiters x anchored derive/xform algebra) are deployed with the real "
             "rime_deployer; prism, table index, syllable graph and the full candidate list (type, range, text, code, sentence "
             "components) of the real translators are dumped for every input up to a length bound and random longer ones; the "
             "extracted model must print the same list, and a brute-force reference from the source rows judges the property itself.",
-    "note": "Level proof, partial: the syllable graph (C08), the compiled index (C06) and the prism (C09) are inputs of the model "
-            "(well-formedness hypotheses wf_graph, graph_pruned, wf_table, table_sorted; the real dumps are fed to the model), Poet "
+    "note": "Level proof, partial: the syllable graph and the compiled index are inputs of the model (hypotheses wf_graph, "
+            "graph_pruned, wf_table, table_sorted - discharged for C08's and C06's builders in Compose.v/ComposeTable.v; the real "
+            "dumps are fed to the model), the prism of the table translator (C09) is an input in ExpandSearch order, Poet "
             "is an oracle (answer type validated on every sentence), weights are exact integers (no double rounding), "
             "std::partial_sort modelled as libstdc++'s swap loop, learning off, one table, max_homographs=1.  Known findings on the "
             "unchanged tree: prefix phrases off a complete segmentation in the table translator's sentence mode; remaining_code "
